@@ -100,8 +100,9 @@ func (g *gen) probes(t *progen.Type, n int) string {
 	fmt.Fprintf(b, "func ret_%s_%d(x %s) (r %s) {\n\tdefer func() {\n\t\t%s(&r, 4)\n\t}()\n\tr = x\n\treturn r\n}\n\n", ID, n, T, T, MUT)
 	fmt.Fprintf(b, "func retp_%s_%d(x *%s) %s {\n\tdefer %s(x, 5)\n\treturn *x\n}\n\n", ID, n, T, T, MUT)
 	fmt.Fprintf(b, "type alt_%s_%d %s\n\n", ID, n, T)
+	fmt.Fprintf(b, "func retg_%s_%d() %s { return glob_%s_%d }\n\nfunc retd_%s_%d(p *%s) %s { return *p }\n\n", ID, n, T, ID, n, ID, n, T, T)
 	fmt.Fprintf(b, "type narr_%s_%d [2]%s\n\ntype narrh_%s_%d struct {\n\tpre I\n\tarr narr_%s_%d\n}\n\n", ID, n, T, ID, n, ID, n)
-	hasMethods := t.Kind == progen.KStruct
+	hasMethods := t.Kind == progen.KStruct || (t.Named && t.Kind != progen.KPtr && t.Kind != progen.KIface)
 	if hasMethods {
 		fmt.Fprintf(b, "func (r %s) c07get%d() %s { return r }\n", T, n, T)
 		fmt.Fprintf(b, "func (r %s) c07mutv%d() string {\n\t%s(&r, 7)\n\treturn %s\n}\n", T, n, MUT, S("r"))
@@ -275,6 +276,21 @@ func (g *gen) probes(t *progen.Type, n int) string {
 	w("\t%s(&a, 5)", MUT)
 	w("\temit(\"box-slice\", %s+\"|\"+%s)", S("is[1].("+T+")"), S("k.("+T+")"))
 	w("}")
+	w("{ // results of calls that return a variable itself are copied where they are stored")
+	w("\tglob_%s_%d = %s(1)", ID, n, MK)
+	w("\tvar i interface{} = retg_%s_%d()", ID, n)
+	w("\tx := retg_%s_%d()", ID, n)
+	w("\tis := []interface{}{retg_%s_%d(), retd_%s_%d(&glob_%s_%d)}", ID, n, ID, n, ID, n)
+	w("\tim := map[string]interface{}{\"k\": retg_%s_%d()}", ID, n)
+	w("\tch := make(chan interface{}, 1)")
+	w("\tch <- retg_%s_%d()", ID, n)
+	w("\tst := struct{ f interface{} }{retg_%s_%d()}", ID, n)
+	w("\tfn := func(v interface{}) interface{} { return v }")
+	w("\tpassed := fn(retg_%s_%d())", ID, n)
+	w("\t%s(&glob_%s_%d, 6)", MUT, ID, n)
+	w("\temit(\"box-call\", %s+\"|\"+%s+\"|\"+%s+\"|\"+%s+\"|\"+%s)", S("i.("+T+")"), S("x"), S("is[0].("+T+")"), S("is[1].("+T+")"), S("im[\"k\"].("+T+")"))
+	w("\temit(\"box-call2\", %s+\"|\"+%s+\"|\"+%s+\"|\"+%s)", S("(<-ch).("+T+")"), S("st.f.("+T+")"), S("passed.("+T+")"), S(fmt.Sprintf("glob_%s_%d", ID, n)))
+	w("}")
 	w("{ // conversion between identical-layout named types")
 	w("\ta := %s(1)", MK)
 	w("\tb := alt_%s_%d(a)", ID, n)
@@ -294,6 +310,12 @@ func (g *gen) probes(t *progen.Type, n int) string {
 		w("\tgm := a.c07mutv%d", n)
 		w("\t%s(&a, 1)", MUT)
 		w("\temit(\"mval\", %s+\"|\"+gm()+\"|\"+%s)", S("f()"), S("a"))
+		w("\tpa := &a")
+		w("\tfp := pa.c07get%d", n)
+		w("\tvar ipa c07iface%d_%s = pa", n, ID)
+		w("\tfi := ipa.c07get%d", n)
+		w("\t%s(&a, 3)", MUT)
+		w("\temit(\"mval-ptr\", %s+\"|\"+%s+\"|\"+%s)", S("fp()"), S("fi()"), S("a"))
 		w("\tr1 := a.c07mutv%d()", n)
 		w("\tr2 := (&a).c07mutv%d()", n)
 		w("\temit(\"vrecv\", r1+\"|\"+r2+\"|\"+%s)", S("a"))
